@@ -211,6 +211,16 @@ class Desugarer:
     def trace(self, op, used):
         """pipeline tree behind an iterator-valued operand"""
         d, last = self.value_def(op)
+        if d is not None and d[0] == "stmt":
+            # `find`/`any`/`position` take `&mut self`: look through the reference to the iterator value itself
+            st0 = self.blocks[d[1]]["stmts"][d[2]]
+            rv0 = st0.get("rv", {})
+            if rv0.get("k") == "ref" and not rv0["place"]["p"] and not st0["place"]["p"]:
+                u2 = []
+                inner = self.trace({"copy": rv0["place"]}, u2)
+                if inner[0] != "src":
+                    used.extend(u2)
+                    return inner
         if d is None or d[0] != "call":
             return ("src", last)
         t = self.blocks[d[1]]["term"]
